@@ -29,6 +29,14 @@ Definition run (inp : list Z) : list Z :=
           if (M <=? 0) || (N <=? 0) then emalformed else
           0 :: earr L (idft2 (S := GRS L) sq f ar ac M N shr shc un)
       | None => emalformed end
+    else if op =? 3 then      (* round trip over one full period: idft2 (dft2 f), alpha = 1/shape *)
+      match pall (f <- parr L ;; un <- pbool ;; pret (f, un)) rest with
+      | Some (f, un) =>
+          let m := nr f in let n := nc f in
+          if (m <=? 0) || (n <=? 0) then emalformed else
+          let ar := (/ zq m)%Qc in let ac := (/ zq n)%Qc in
+          0 :: earr L (idft2 (S := GRS L) sq (dft2 (S := GRS L) sq f ar ac m n 0%Qc 0%Qc 0 0 un) ar ac m n 0%Qc 0%Qc un)
+      | None => emalformed end
     else emalformed
   | _ => emalformed
   end.
